@@ -939,6 +939,52 @@ type sublayoutShape struct {
 	inKey, inVal       ssa.Value
 	rec                ssa.CallInstruction
 	recFn              *ssa.Function
+	// the recursive call may sit in an unexported helper that VerifySublayouts calls per sublayout and whose results
+	// are the recursive call's own: via is that call, helper the function
+	via    ssa.CallInstruction
+	helper *ssa.Function
+}
+
+// site: the call that stands for the recursion in VerifySublayouts itself.
+func (s *sublayoutShape) site() ssa.CallInstruction {
+	if s.via != nil {
+		return s.via
+	}
+	return s.rec
+}
+
+// frame: the function that contains the recursive call.
+func (s *sublayoutShape) frame() *ssa.Function {
+	if s.helper != nil {
+		return s.helper
+	}
+	return s.f
+}
+
+// up: a value of the frame seen from VerifySublayouts (helper parameters are replaced by the arguments).
+func (s *sublayoutShape) up(v ssa.Value, at ssa.Instruction) ssa.Value {
+	x := resolve(v, at)
+	if s.via != nil {
+		if prm, ok := x.(*ssa.Parameter); ok && prm.Parent() == s.helper && paramIndex(prm) < len(s.via.Common().Args) {
+			return resolve(s.via.Common().Args[paramIndex(prm)], s.via)
+		}
+	}
+	return x
+}
+
+// derivesUp: v (a value of the frame) derives from target (a value of VerifySublayouts), through helper parameters.
+func (s *sublayoutShape) derivesUp(v ssa.Value, target ssa.Value) bool {
+	return derives(v, func(x ssa.Value) bool {
+		if x == target {
+			return true
+		}
+		if s.via != nil {
+			if prm, ok := x.(*ssa.Parameter); ok && prm.Parent() == s.helper && paramIndex(prm) < len(s.via.Common().Args) {
+				return derives(s.via.Common().Args[paramIndex(prm)], func(y ssa.Value) bool { return y == target }, false)
+			}
+		}
+		return false
+	}, false)
 }
 
 func (c *Ctx) sublayoutShape(R string) *sublayoutShape {
@@ -993,6 +1039,19 @@ func (c *Ctx) sublayoutShape(R string) *sublayoutShape {
 			s.rec, s.recFn = call, g
 		}
 	}
+	if s.rec == nil {
+		for _, via := range allCalls(f) {
+			h := via.Common().StaticCallee()
+			if !c.isStageHelper(h) {
+				continue
+			}
+			for _, call := range allCalls(h) {
+				if g := call.Common().StaticCallee(); g != nil && entries[g] && c.helperGuarantees(h, call) {
+					s.rec, s.recFn, s.via, s.helper = call, g, via, h
+				}
+			}
+		}
+	}
 	return s
 }
 
@@ -1010,7 +1069,7 @@ func ruleC08_1(c *Ctx) {
 		return
 	}
 	// the recursive call verifies the iterated metadata and is control-dependent on payload.(Layout) ok
-	okArg := s.inVal != nil && resolve(s.rec.Common().Args[0], s.rec) == s.inVal
+	okArg := s.inVal != nil && s.up(s.rec.Common().Args[0], s.rec) == s.inVal
 	c.check(okArg, R, fn, "recursive call verifies the iterated link metadata", s.rec.Pos(), fname(s.recFn)+"(inner range value, ...)", "the recursive call verifies "+short(org(s.rec.Common().Args[0])))
 	guard := false
 	for _, b := range s.f.Blocks {
@@ -1027,7 +1086,8 @@ func ruleC08_1(c *Ctx) {
 				// every Layout payload reaches the call: the ok-true successor leads to the call block unconditionally
 				for _, cu := range condUsers(okv, false) {
 					tb := branchTaken(cu, true)
-					if tb == s.rec.Block() || (tb.Dominates(s.rec.Block()) && postDominatesSimple(s.rec.Block(), tb)) {
+					sb := s.site().Block()
+					if tb == sb || (tb.Dominates(sb) && postDominatesSimple(sb, tb)) {
 						guard = true
 					}
 				}
@@ -1036,7 +1096,7 @@ func ruleC08_1(c *Ctx) {
 	}
 	c.check(guard, R, fn, "every Layout payload is verified", s.rec.Pos(), "ok-true edge of payload.(Layout) leads straight to the recursive call", "not every link whose payload is a Layout reaches the recursive verification")
 	okErr := false
-	if e := errResult(s.rec); e != nil {
+	if e := errResult(s.site()); e != nil {
 		for _, br := range errBranches(e) {
 			if c.failing(br.NonNil) {
 				okErr = true
@@ -1096,7 +1156,7 @@ func ruleC08_2(c *Ctx) {
 			keysArg = s.rec.Common().Args[i]
 		}
 	}
-	mk, ok := resolve(keysArg, s.rec).(*ssa.MakeMap)
+	mk, ok := s.up(keysArg, s.rec).(*ssa.MakeMap)
 	c.check(ok, R, fn, "fresh key map", s.rec.Pos(), "make(map[string]Key)", "the key map passed to the sublayout verification is not a fresh map: "+short(org(keysArg)))
 	if !ok {
 		return
@@ -1111,16 +1171,21 @@ func ruleC08_2(c *Ctx) {
 	// fresh per sublayout: the map is made inside the loop over the step's links, so keys of functionaries whose
 	// sublayouts were resolved earlier do not accumulate
 	inLoop := false
+	perCall := mk.Parent() == s.helper && s.helper != nil // made by the helper: fresh for every call; the call is in the loop
 	for _, ml := range mapLoops(s.f) {
-		if ml.next == s.inNext && ml.body[mk.Block()] && mk.Block() != ml.header {
+		blk := mk.Block()
+		if perCall {
+			blk = s.via.Block()
+		}
+		if ml.next == s.inNext && ml.body[blk] && blk != ml.header {
 			inLoop = true
 		}
 	}
 	c.check(inLoop, R, fn, "the key map is fresh for every sublayout", mk.Pos(), "made inside the per-link loop", "the key map passed to sublayout verification is created outside the per-link loop: keys of earlier sublayouts accumulate, and every later sublayout must also carry signatures of the earlier functionaries")
 	for _, mu := range ups {
-		keyOK := resolve(mu.Key, mu) == s.inKey
+		keyOK := s.up(mu.Key, mu) == s.inKey
 		valOK := false
-		if lk, ok := resolve(mu.Value, mu).(*ssa.Lookup); ok {
+		if lk, ok := s.up(mu.Value, mu).(*ssa.Lookup); ok {
 			valOK = org(lk.X) == "p0.Keys" && resolve(lk.Index, lk) == s.inKey
 		}
 		c.check(keyOK && valOK, R, fn, "trusted key is parent.Keys[k] under functionary key id k", mu.Pos(), org(mu.Map)+"{"+org(mu.Key)+"} = "+org(mu.Value),
@@ -1144,7 +1209,7 @@ func ruleC08_3(c *Ctx) {
 				continue
 			}
 			pc, idx := producer(mu.Value, mu)
-			if pc == s.rec && idx == 0 && resolve(mu.Key, mu) == s.inKey && c.okCallAt(s.rec, mu.Block()) {
+			if pc == s.site() && idx == 0 && resolve(mu.Key, mu) == s.inKey && c.okCallAt(s.site(), mu.Block()) {
 				replaced = true
 			}
 		}
@@ -1158,7 +1223,7 @@ func ruleC08_3(c *Ctx) {
 			nameIdx = paramIndex(prm)
 		}
 	}
-	okName := nameIdx >= 0 && resolve(s.rec.Common().Args[nameIdx], s.rec) == s.outerKey
+	okName := nameIdx >= 0 && s.up(s.rec.Common().Args[nameIdx], s.rec) == s.outerKey
 	c.check(okName, R, fn, "summary is named after the step", s.rec.Pos(), "step-name argument is the outer map key", "the name passed for the summary link is not the step's name")
 }
 
@@ -1184,12 +1249,12 @@ func ruleC08_4(c *Ctx) {
 	}
 	o := org(s.rec.Common().Args[dirIdx])
 	// expected: filepath.Join(varargs[p2, Sprintf(const, varargs[outerKey, innerKey])])
-	join, ok := resolve(s.rec.Common().Args[dirIdx], s.rec).(*ssa.Call)
+	join, ok := s.up(s.rec.Common().Args[dirIdx], s.rec).(*ssa.Call)
 	okJoin := ok && calleeName(join) == "path/filepath.Join"
 	var spf *ssa.Call
 	usesParent := false
 	if okJoin {
-		usesParent = derives(join.Call.Args[0], func(v ssa.Value) bool { return v == ssa.Value(s.f.Params[2]) }, false)
+		usesParent = s.derivesUp(join.Call.Args[0], ssa.Value(s.f.Params[2]))
 		derives(join.Call.Args[0], func(v ssa.Value) bool {
 			if k, ok := v.(*ssa.Call); ok && calleeName(k) == "fmt.Sprintf" {
 				spf = k
@@ -1201,8 +1266,8 @@ func ruleC08_4(c *Ctx) {
 	if spf != nil {
 		format, _ := constString(spf.Call.Args[0])
 		c.check(format == "%s.%.8s", R, fn, "SublayoutLinkDirFormat", spf.Pos(), format, fmt.Sprintf("format is %q, the spec'd sublayout directory is <step>.<8 char keyid prefix> (\"%%s.%%.8s\")", format))
-		a0 := derives(spf.Call.Args[1], func(v ssa.Value) bool { return v == s.outerKey }, false)
-		a1 := derives(spf.Call.Args[1], func(v ssa.Value) bool { return v == s.inKey }, false)
+		a0 := s.derivesUp(spf.Call.Args[1], s.outerKey)
+		a1 := s.derivesUp(spf.Call.Args[1], s.inKey)
 		c.check(a0 && a1, R, fn, "format arguments are (step name, functionary key id)", spf.Pos(), short(org(spf.Call.Args[1])), "the directory name is not built from the step name and the functionary key id")
 	}
 }
